@@ -64,6 +64,8 @@ DEFAULT_WEIGHTS = dict(
     thread_stmts=(0, 2),  # (lo, hi) simple statements of a thread knot before its choices (C16 raises it:
                           # the story then pauses between two lines INSIDE a forked thread)
     func_stmts=(0, 2),    # (lo, hi) statements of an impure function before its final return
+    fallback_pos=0.0,     # probability that a group's fallback is written ahead of a visible choice (0: always last)
+    thread_fallback=0.0,  # probability that a thread knot also contributes a (once-only) fallback choice
 )
 
 # what Spec/RefSem.v covers: everything else is switched off in fragment="refsem"
@@ -430,7 +432,14 @@ class Gen:
         n = r.randint(1, self.w["max_choices"])
         cs = [self.choice(sc, level, must_divert) for _ in range(n)]
         if self.p("fallback"):
-            cs.append(self.choice(sc, level, must_divert, fallback=True))
+            fb = self.choice(sc, level, must_divert, fallback=True)
+            # (addition, off by default — no extra draw then) the fallback written AHEAD of visible choices of
+            # its group: the generated choice list and the list the host sees are numbered differently
+            fp = self.w.get("fallback_pos", 0.0)
+            if fp > 0 and r.random() < fp:
+                cs.insert(r.randint(0, len(cs) - 1), fb)
+            else:
+                cs.append(fb)
         return cs
 
     def weave(self, sc, final):
@@ -528,6 +537,12 @@ class Gen:
             body = self.simple_block(sc, set(), *w["thread_stmts"])
             n = r.randint(1, 2)
             body.append(["choices", [self.choice(sc, 2, must_divert=True) for _ in range(n)]])
+            # (addition, off by default — no extra draw then) a once-only fallback among the thread's choices:
+            # it is generated BEFORE the choices of the weave that started the thread
+            tf = w.get("thread_fallback", 0.0)
+            if tf > 0 and r.random() < tf:
+                fb = self.choice(dict(sc, fallback_once=True), 2, must_divert=True, fallback=True)
+                body[-1][1].insert(r.randint(0, n), fb)
             thknots.append({"name": name, "params": [], "function": False, "body": body, "stitches": []})
 
         # main knots, in order
